@@ -49,6 +49,19 @@ def gen_tm_case(seed: int, kinds: list[str]) -> dict:
     return {'component': 'tm', 'seed': seed, 'kind': kind, 'args': args, 'lines': lines}
 
 
+def _tm_worker(args):
+    seed, kinds = args
+    import warnings
+    warnings.simplefilter('ignore')
+    case = gen_tm_case(seed, kinds)
+    try:
+        impl = TmImpl(case['kind'], case['args']).run(case['lines'])
+        model = run_model([f'tm-reset {case["kind"]} ' + ' '.join(case['args'])] + case['lines'])[1:]
+        return case, impl, model, None
+    except BaseException as e:  # noqa: BLE001
+        return case, None, None, f'{type(e).__name__}: {e}'
+
+
 class TmProp:
     component = 'tm'
     assumptions = [
@@ -62,10 +75,10 @@ class TmProp:
         self.pid, self.theorems, self.kinds = pid, theorems, kinds
         self.module = f'EaModel.Properties.{pid}'
 
-    def check_case(self, run: Run, case: dict) -> None:
+    def check_case(self, run: Run, case: dict, pre: tuple | None = None) -> None:
         import warnings
         warnings.simplefilter('ignore')
-        impl = TmImpl(case['kind'], case['args']).run(case['lines'])
+        impl = pre[0] if pre else TmImpl(case['kind'], case['args']).run(case['lines'])
         run.evaluations += 1
         n_ev = sum(len(b) for b in impl)
         if n_ev > len(impl) + 2:
@@ -81,7 +94,7 @@ class TmProp:
         for p, msg in tm_oracle(case['kind'], case['args'], case['lines'], impl):
             if p == self.pid:
                 run.findings.append(Finding('oracle', f'{case["kind"]} {case["args"]}: {msg}', case))
-        model = run_model([f'tm-reset {case["kind"]} ' + ' '.join(case['args'])] + case['lines'])[1:]
+        model = pre[1] if pre else run_model([f'tm-reset {case["kind"]} ' + ' '.join(case['args'])] + case['lines'])[1:]
         run.traces_validated += 1
         for i, (a, b) in enumerate(zip(impl, model)):
             if a != b:
@@ -103,8 +116,20 @@ class TmProp:
                 if d['kind'] in self.kinds:
                     self.check_case(run, d)
         base = run.seed * 1_000_003 + int(self.pid[1:]) * 7919
-        for i in range(n):
-            self.check_case(run, gen_tm_case(base + i, self.kinds))
+        if run.tier == 'thorough':
+            # real loop and model in worker processes, judged here
+            from concurrent.futures import ProcessPoolExecutor
+            import os
+            with ProcessPoolExecutor(max_workers=min(16, os.cpu_count() or 4)) as ex:
+                for case, impl, model, err in ex.map(_tm_worker, [(base + i, self.kinds) for i in range(n)], chunksize=25):
+                    if err:
+                        run.findings.append(Finding('correspondence', f'adapter crashed on the real code: {err}',
+                                                    {**case, 'broken': 'adapter'}))
+                        continue
+                    self.check_case(run, case, (impl, model))
+        else:
+            for i in range(n):
+                self.check_case(run, gen_tm_case(base + i, self.kinds))
         self.shrink(run)
 
     def shrink(self, run: Run) -> None:
